@@ -15,7 +15,7 @@ import (
 	"pgregory.net/rapid"
 )
 
-var ordinaryNames = []string{"name", "test", "x", "extra_1", "@meta", "Publi", "o", "p", "arr", "a-b", "Z9", "nested", "also", "keys", "_", "@", "0",
+var ordinaryNames = []string{"identifier", "name", "idx", "ids", "ID", "Id", "id2", "@contextual", "context", "alsoKnownAs2", "test", "x", "extra_1", "@meta", "Publi", "o", "p", "arr", "a-b", "Z9", "nested", "also", "keys", "_", "@", "0",
 	// ordinary = free of JSON-pointer (/ ~) and quoting (" \ control) metacharacters; everything else is just a name
 	"discount%", "a%%b", "50%off", "%s", "%d%v", "with space", "dot.name", "colon:name", "é", "名前", "a+b", "q?", "#hash", "a&b", "<tag>", "$ref", "[0]", "{x}", "a=b", "😀", "%", "100%"}
 
